@@ -82,6 +82,10 @@ _Bool nondet_bool(void);
   static inline struct pair_##N *umap_##N##__begin(struct umap_##N *s) { \
     if (s->n == 0) return (struct pair_##N *)0; \
     struct pair_##N fresh; umap_##N##__cur = fresh; return &umap_##N##__cur; } \
+  static inline struct pair_##N *umap_##N##__next(struct pair_##N *it) { \
+    __CPROVER_assert(it != (struct pair_##N *)0, "unordered_map iterator: ++ on end()"); \
+    if (nondet_bool()) return (struct pair_##N *)0; \
+    struct pair_##N fresh; umap_##N##__cur = fresh; return &umap_##N##__cur; } \
   static inline V *umap_##N##__index(struct umap_##N *s, K *k) { \
     UMAP_REDRAW \
     if (!umap_present) { s->n++; umap_present = 1; } \
